@@ -367,7 +367,8 @@ def check_rows(sl, data, events_plain, events_arg, centers, neighbors, method, t
                 want = np.array([table[(labs[a], labs[b])] for (a, b) in ref.pairs(len(labs))])
                 require_close(dv, want, 'direct calc_rdm(%s) on searchlight columns %s vs reference '
                               'by label' % (method, nb), tag + ':direct-vs-reference', rt, at)
-            cache[key] = (dv, float(np.max(np.abs(dv))) if dv.size else 0.0)
+            fin = np.abs(dv[np.isfinite(dv)])
+            cache[key] = (dv, float(fin.max()) if fin.size else 0.0)
         dv, mag = cache[key]
         if not core.close(got[i], dv, rtol=1e-12, atol=1e-12 * max(mag, 1e-300)):
             # does the row belong to another centre?
